@@ -51,6 +51,10 @@ theorem lookup_congr {w w' : World} (h : w'.pdicts = w.pdicts) (o : Obj) : w'.lo
     (w.setCell k c).lookup o = w.lookup o :=
   lookup_congr rfl o
 
+theorem lookup_congr_at {w w' : World} {o : Obj} (h : w'.pdicts o.pdict = w.pdicts o.pdict) :
+    w'.lookup o = w.lookup o := by
+  unfold World.lookup; rw [h]
+
 theorem lookup_slot {w : World} {o o' : Obj} (hs : o'.slot = o.slot) (hp : o'.pdict = o.pdict) :
     w.lookup o' = w.lookup o := by
   unfold World.lookup; rw [hs, hp]
@@ -70,6 +74,11 @@ theorem lookup_not_callable_of_key {w : World} {o : Obj} (hk : w.pdicts o.pdict 
 theorem ObjOK.congr {w w' : World} {o : Obj} (h : ObjOK w o) (hp : w'.pdicts = w.pdicts)
     (hn : w.nDict ≤ w'.nDict) : ObjOK w' o :=
   ⟨by rw [lookup_congr hp]; exact h.hasP, by rw [hp]; exact h.famAbsent, Nat.lt_of_lt_of_le h.alloc hn,
+   h.slotFine⟩
+
+theorem ObjOK.congrAt {w w' : World} {o : Obj} (h : ObjOK w o) (hp : w'.pdicts o.pdict = w.pdicts o.pdict)
+    (hn : w.nDict ≤ w'.nDict) : ObjOK w' o :=
+  ⟨by rw [lookup_congr_at hp]; exact h.hasP, by rw [hp]; exact h.famAbsent, Nat.lt_of_lt_of_le h.alloc hn,
    h.slotFine⟩
 
 theorem ObjOK.fields {w : World} {o o' : Obj} (h : ObjOK w o) (hs : o'.slot = o.slot)
@@ -127,6 +136,72 @@ theorem WF.setPdict {w : World} (h : WF w) {k : Nat} (hk : w.pdicts k ≠ none) 
     apply Nat.lt_of_not_le; intro hle; exact hk (h.fresh k hle)
   have : j ≠ k := by omega
   simp [World.setPdict, this]; exact h.fresh j hj
+
+theorem WF.delPdict {w : World} (h : WF w) (k : Nat) : WF (w.delPdict k) := by
+  refine ⟨?_, ?_⟩
+  · intro i x hx
+    have ok := h.objs i x hx
+    by_cases hk : x.pdict = k
+    · refine ⟨?_, ?_, ok.alloc, ok.slotFine⟩
+      · intro hc
+        by_cases hpres : w.pdicts x.pdict = none
+        · have : (w.delPdict k).lookup x = w.lookup x := by
+            apply lookup_congr_at; simp [World.delPdict, hk]; rw [← hk]; exact hpres.symm
+          rw [this] at hc; exact ok.hasP hc
+        · have hs := ok.famAbsent hpres
+          have : ((w.delPdict k).lookup x).callable = false := by
+            unfold World.lookup World.delPdict; simp [hs, hk]; rfl
+          rw [this] at hc; cases hc
+      · intro hne; exfalso; apply hne; simp [World.delPdict, hk]
+    · exact ok.congrAt (by simp [World.delPdict, hk]) (Nat.le_refl _)
+  · intro j hj
+    by_cases hjk : j = k
+    · simp [World.delPdict, hjk]
+    · simp [World.delPdict, hjk]; exact h.fresh j hj
+
+theorem ObjOK.delPdict_self {w : World} {o : Obj} (h : ObjOK w o) : ObjOK (w.delPdict o.pdict) o := by
+  refine ⟨?_, ?_, h.alloc, h.slotFine⟩
+  · intro hc
+    by_cases hpres : w.pdicts o.pdict = none
+    · have : (w.delPdict o.pdict).lookup o = w.lookup o := by
+        apply lookup_congr_at; simp [World.delPdict]; exact hpres.symm
+      rw [this] at hc; exact h.hasP hc
+    · have hs := h.famAbsent hpres
+      have : ((w.delPdict o.pdict).lookup o).callable = false := by
+        unfold World.lookup World.delPdict; simp [hs]; rfl
+      rw [this] at hc; cases hc
+  · intro hne; exfalso; apply hne; simp [World.delPdict]
+
+/-- the world in which a shallow copy's new `_parameters` container has been allocated. -/
+theorem copyRec_ok {w : World} (h : WF w) {o : Obj} (ho : ObjOK w o) :
+    WF (w.copyDict o.pdict)
+    ∧ ObjOK (w.copyDict o.pdict) (copyRec w o) := by
+  refine ⟨⟨?_, ?_⟩, ?_⟩
+  · intro i x hx
+    have ok := h.objs i x hx
+    have hne : x.pdict ≠ w.nDict := Nat.ne_of_lt ok.alloc
+    exact ok.congrAt (by simp [World.copyDict, hne]) (Nat.le_succ _)
+  · intro j hj
+    have hj : w.nDict + 1 ≤ j := hj
+    have hjn : j ≠ w.nDict := by omega
+    simp [World.copyDict, hjn]; exact h.fresh j (by omega)
+  · refine ⟨?_, ?_, Nat.lt_succ_self _, ho.slotFine⟩
+    · intro hc
+      have : World.lookup (w.copyDict o.pdict) (copyRec w o) = w.lookup o := by
+        unfold World.lookup copyRec World.copyDict; simp
+      rw [this] at hc; exact ho.hasP hc
+    · intro hk; apply ho.famAbsent; simpa [copyRec, World.copyDict] using hk
+
+theorem WF_copyObj {w : World} (h : WF w) {o : Obj} (ho : ObjOK w o) : WF (copyObj w o).1 := by
+  obtain ⟨h1, h2⟩ := copyRec_ok h ho
+  exact h1.addObj h2
+
+theorem ObjOK_copyRec {w : World} (h : WF w) {o : Obj} (ho : ObjOK w o) : ObjOK (copyObj w o).1 (copyRec w o) := by
+  obtain ⟨h1, h2⟩ := copyRec_ok h ho
+  exact h2.congr rfl (Nat.le_refl _)
+
+theorem objs_copyObj_new (w : World) (o : Obj) : (copyObj w o).1.objs (copyObj w o).2 = some (copyRec w o) := by
+  simp [copyObj, World.addObj]
 
 @[simp] theorem objs_setObj_same (w : World) (id : Nat) (o : Obj) : (w.setObj id o).objs id = some o := by
   simp [World.setObj]
@@ -408,6 +483,37 @@ theorem dataCell_ok_of_WF {w : World} {o : Obj} (ho : ObjOK w o) (hl : w.lookup 
     | none => simp [hp] at this
     | some c => exact ⟨c, rfl⟩
 
+theorem WF_linkCore {w : World} (h : WF w) {o : Obj} (ho : ObjOK w o) (id oid : Nat) {other : Obj}
+    (hother : w.objs oid = some other) : WF (linkCore w id o oid other).1 := by
+  unfold linkCore
+  cases hs : setParams w o (.obj oid) with
+  | error e => exact h
+  | ok r =>
+    obtain ⟨w1, o1⟩ := r
+    obtain ⟨h1, hobjs, _, _, hnd, _, _, ⟨s', rfl⟩, hl, hfa, hsf, _⟩ :=
+      setParams_spec h ho.famAbsent ho.slotFine (fun c hc => by cases hc) hs
+    have halloc : ({ o with slot := s' } : Obj).pdict < w1.nDict := by rw [hnd]; exact ho.alloc
+    simp only
+    cases hp : o.p with
+    | some pc =>
+      simp only [hp]
+      exact h1.setObj id (ObjOK.of_lookup hl (fun _ => by simp [hp]) hfa halloc hsf)
+    | none =>
+      simp only [hp]
+      have hother1 : w1.objs oid = some other := by rw [hobjs]; exact hother
+      split
+      · apply WF_clearLeaf
+        refine (h1.newCell _ _).setObj id ?_
+        refine ObjOK.of_lookup (val := .obj oid) ?_ (fun _ => rfl) hfa ?_ hsf
+        · rw [lookup_newCell]; exact (lookup_slot rfl rfl).trans hl
+        · exact halloc
+      · next hne =>
+        obtain ⟨c, hc⟩ := dataCell_ok_of_WF (h1.objs oid other hother1) (by
+          intro hh; exact hne hh)
+        simp only [hc]
+        refine h1.setObj id (ObjOK.of_lookup (val := .obj oid) ?_ (fun _ => rfl) hfa halloc hsf)
+        exact (lookup_slot rfl rfl).trans hl
+
 theorem WF_linkInto {w : World} (h : WF w) {o : Obj} (ho : ObjOK w o) (id oid : Nat) :
     WF (linkInto w id o oid).1 := by
   unfold linkInto
@@ -418,33 +524,9 @@ theorem WF_linkInto {w : World} (h : WF w) {o : Obj} (ho : ObjOK w o) (id oid : 
     · next other hother =>
       split
       · exact h
-      · cases hs : setParams w o (.obj oid) with
-        | error e => exact h
-        | ok r =>
-          obtain ⟨w1, o1⟩ := r
-          obtain ⟨h1, hobjs, _, _, hnd, _, _, ⟨s', rfl⟩, hl, hfa, hsf, _⟩ :=
-            setParams_spec h ho.famAbsent ho.slotFine (fun c hc => by cases hc) hs
-          have halloc : ({ o with slot := s' } : Obj).pdict < w1.nDict := by rw [hnd]; exact ho.alloc
-          simp only
-          cases hp : o.p with
-          | some pc =>
-            simp only [hp]
-            exact h1.setObj id (ObjOK.of_lookup hl (fun _ => by simp [hp]) hfa halloc hsf)
-          | none =>
-            simp only [hp]
-            have hother1 : w1.objs oid = some other := by rw [hobjs]; exact hother
-            split
-            · apply WF_clearLeaf
-              refine (h1.newCell _ _).setObj id ?_
-              refine ObjOK.of_lookup (val := .obj oid) ?_ (fun _ => rfl) hfa ?_ hsf
-              · rw [lookup_newCell]; exact (lookup_slot rfl rfl).trans hl
-              · exact halloc
-            · next hne =>
-              obtain ⟨c, hc⟩ := dataCell_ok_of_WF (h1.objs oid other hother1) (by
-                intro hh; exact hne hh)
-              simp only [hc]
-              refine h1.setObj id (ObjOK.of_lookup (val := .obj oid) ?_ (fun _ => rfl) hfa halloc hsf)
-              exact (lookup_slot rfl rfl).trans hl
+      · split
+        · exact WF_linkCore (h.delPdict _) ho.delPdict_self id oid hother
+        · exact WF_linkCore h ho id oid hother
 
 theorem WF_unlinkInto {w w' : World} (h : WF w) {o : Obj} (ho : ObjOK w o) {id : Nat}
     (hu : unlinkInto w id o = .ok w') : WF w' := by
@@ -585,9 +667,9 @@ theorem WF_gridSet {w : World} (h : WF w) {id : Nat} {o : Obj} (ho : w.objs id =
         split
         · exact h
         · split
-          · have h1 : WF (w.setObj id { o with grid := g }) := h.modify ho rfl rfl (fun x => x)
-            have hok1 : ObjOK (w.setObj id { o with grid := g }) { o with grid := g } :=
-              (hok.fields (o' := { o with grid := g }) rfl rfl (fun x => x)).congr rfl (Nat.le_refl _)
+          · have h1 : WF (w.setObj id { o with u := none, v := none, grid := g }) := h.modify ho rfl rfl (fun x => x)
+            have hok1 : ObjOK (w.setObj id { o with u := none, v := none, grid := g }) { o with u := none, v := none, grid := g } :=
+              (hok.fields (o' := { o with u := none, v := none, grid := g }) rfl rfl (fun x => x)).congr rfl (Nat.le_refl _)
             dsimp only
             split
             · next w2 hd => exact WF_dataSet h1 hok1 hd
@@ -597,15 +679,17 @@ theorem WF_gridSet {w : World} (h : WF w) {id : Nat} {o : Obj} (ho : w.objs id =
         split
         · exact h
         · split
-          · have h1 : WF (w.setObj id { o with grid := g }) := h.modify ho rfl rfl (fun x => x)
-            have hok1 : ObjOK (w.setObj id { o with grid := g }) { o with grid := g } :=
-              (hok.fields (o' := { o with grid := g }) rfl rfl (fun x => x)).congr rfl (Nat.le_refl _)
+          · have h1 : WF (w.setObj id { o with u := none, v := none, grid := g }) := h.modify ho rfl rfl (fun x => x)
+            have hok1 : ObjOK (w.setObj id { o with u := none, v := none, grid := g }) { o with u := none, v := none, grid := g } :=
+              (hok.fields (o' := { o with u := none, v := none, grid := g }) rfl rfl (fun x => x)).congr rfl (Nat.le_refl _)
             dsimp only
             split
             · next w2 hd => exact WF_dataSet h1 hok1 hd
             · exact h1
           · exact h
-      · exact h.modify ho rfl rfl (fun x => x)
+      · split
+        · exact h
+        · exact h.modify ho rfl rfl (fun x => x)
     · have hb := WF_baseGrid h id o g
       have key : ∀ c : Nat, WF (match (baseGrid w id o g).objs id with
           | none => (baseGrid w id o g, some Err.noobj)
@@ -673,13 +757,14 @@ theorem invFinish_frame (w : World) (oi : Obj) (inv ub : Bool) :
 theorem WF_inverseLeaf {w w' : World} (h : WF w) {id nid : Nat} {o : Obj} (ho : w.objs id = some o)
     {link ub : Bool} (hi : inverseLeaf w id o link ub = .ok (w', nid)) : WF w' := by
   have hok := h.objs id o ho
-  unfold inverseLeaf copyObj at hi
-  have h1 : WF (w.addObj o).1 := h.addObj hok
+  unfold inverseLeaf at hi
+  have h1 : WF (copyObj w o).1 := WF_copyObj h hok
   split at hi
   · simp only at hi
-    have hr : WF ((if link = true then linkInto (w.addObj o).1 (w.addObj o).2 o id else ((w.addObj o).1, none)) : World × Option Err).1 := by
+    have hr : WF ((if link = true then linkInto (copyObj w o).1 (copyObj w o).2 (copyRec w o) id
+        else ((copyObj w o).1, none)) : World × Option Err).1 := by
       split
-      · exact WF_linkInto h1 hok.addObj _ _
+      · exact WF_linkInto h1 (ObjOK_copyRec h hok) _ _
       · exact h1
     split at hi
     · cases hi
@@ -688,7 +773,8 @@ theorem WF_inverseLeaf {w w' : World} (h : WF w) {id nid : Nat} {o : Obj} (ho : 
       · next oi hoi =>
         simp only [Except.ok.injEq, Prod.mk.injEq] at hi
         obtain ⟨rfl, _⟩ := hi
-        have fr := invFinish_frame ((if link = true then linkInto (w.addObj o).1 (w.addObj o).2 o id else ((w.addObj o).1, none)) : World × Option Err).1 oi (!o.invert) ub
+        have fr := invFinish_frame ((if link = true then linkInto (copyObj w o).1 (copyObj w o).2 (copyRec w o) id
+          else ((copyObj w o).1, none)) : World × Option Err).1 oi (!o.invert) ub
         exact hr.modify hoi fr.1 fr.2.1 (by rw [fr.2.2.1]; exact fun x => x)
   · cases hi
 
@@ -779,36 +865,57 @@ theorem setParams_obj_frame {w w1 : World} {o o1 : Obj} {s : Nat} (h : setParams
       · simp only [Except.ok.injEq, Prod.mk.injEq] at h; exact h.1.symm
       · rename_i hne1 hne2; exact absurd rfl (hne1 s)
 
-theorem linkInto_frame (w : World) (id : Nat) (o : Obj) (oid : Nat) :
-    (linkInto w id o oid).1.pdicts = w.pdicts ∧ (linkInto w id o oid).1.nDict = w.nDict := by
-  unfold linkInto
+theorem linkCore_frame (w : World) (id : Nat) (o : Obj) (oid : Nat) (other : Obj) :
+    (linkCore w id o oid other).1.pdicts = w.pdicts ∧ (linkCore w id o oid other).1.nDict = w.nDict := by
+  unfold linkCore
   split
   · exact ⟨rfl, rfl⟩
-  · split
+  · next w1 o1 hs =>
+    have := setParams_obj_frame hs; subst this
+    split
     · exact ⟨rfl, rfl⟩
     · split
-      · exact ⟨rfl, rfl⟩
+      · obtain ⟨a, b, _, _⟩ := pdicts_clearLeaf ((w1.newCell (.lit 0) o1.grid).1.setObj id { o1 with p := some (w1.newCell (.lit 0) o1.grid).2 }) id
+        exact ⟨a, b⟩
+      · split <;> exact ⟨rfl, rfl⟩
+
+/-- `link_` touches the `_parameters` container of the linking instance only. -/
+theorem linkInto_frame (w : World) (id : Nat) (o : Obj) (oid : Nat) :
+    (∀ k, k ≠ o.pdict → (linkInto w id o oid).1.pdicts k = w.pdicts k)
+      ∧ (linkInto w id o oid).1.nDict = w.nDict := by
+  unfold linkInto
+  split
+  · exact ⟨fun _ _ => rfl, rfl⟩
+  · split
+    · exact ⟨fun _ _ => rfl, rfl⟩
+    · split
+      · exact ⟨fun _ _ => rfl, rfl⟩
       · split
-        · exact ⟨rfl, rfl⟩
-        · next w1 o1 hs =>
-          have := setParams_obj_frame hs; subst this
-          split
-          · exact ⟨rfl, rfl⟩
-          · split
-            · obtain ⟨a, b, _, _⟩ := pdicts_clearLeaf ((w1.newCell (.lit 0) o1.grid).1.setObj id { o1 with p := some (w1.newCell (.lit 0) o1.grid).2 }) id
-              exact ⟨a, b⟩
-            · split <;> exact ⟨rfl, rfl⟩
+        · obtain ⟨a, b⟩ := linkCore_frame (w.delPdict o.pdict) id o oid _
+          refine ⟨fun k hk => ?_, b⟩
+          rw [a]; simp [World.delPdict, hk]
+        · obtain ⟨a, b⟩ := linkCore_frame w id o oid _
+          exact ⟨fun k _ => by rw [a], b⟩
 
 theorem inverseLeaf_frame {w w' : World} {id nid : Nat} {o : Obj} {link ub : Bool}
-    (hi : inverseLeaf w id o link ub = .ok (w', nid)) : w'.pdicts = w.pdicts ∧ w'.nDict = w.nDict := by
-  unfold inverseLeaf copyObj at hi
+    (hi : inverseLeaf w id o link ub = .ok (w', nid)) :
+    (∀ k, k < w.nDict → w'.pdicts k = w.pdicts k) ∧ w.nDict ≤ w'.nDict := by
+  unfold inverseLeaf at hi
   split at hi
   · simp only at hi
-    have hr : ((if link = true then linkInto (w.addObj o).1 (w.addObj o).2 o id else ((w.addObj o).1, none)) : World × Option Err).1.pdicts = w.pdicts
-        ∧ ((if link = true then linkInto (w.addObj o).1 (w.addObj o).2 o id else ((w.addObj o).1, none)) : World × Option Err).1.nDict = w.nDict := by
+    have hcopy : (∀ k, k < w.nDict → (copyObj w o).1.pdicts k = w.pdicts k) ∧ (copyObj w o).1.nDict = w.nDict + 1 := by
+      refine ⟨fun k hk => ?_, rfl⟩
+      have : k ≠ w.nDict := Nat.ne_of_lt hk
+      simp [copyObj, World.addObj, World.copyDict, this]
+    have hr : (∀ k, k < w.nDict → ((if link = true then linkInto (copyObj w o).1 (copyObj w o).2 (copyRec w o) id
+          else ((copyObj w o).1, none)) : World × Option Err).1.pdicts k = w.pdicts k)
+        ∧ w.nDict ≤ ((if link = true then linkInto (copyObj w o).1 (copyObj w o).2 (copyRec w o) id
+          else ((copyObj w o).1, none)) : World × Option Err).1.nDict := by
       split
-      · exact linkInto_frame _ _ _ _
-      · exact ⟨rfl, rfl⟩
+      · obtain ⟨a, b⟩ := linkInto_frame (copyObj w o).1 (copyObj w o).2 (copyRec w o) id
+        refine ⟨fun k hk => ?_, by rw [b, hcopy.2]; exact Nat.le_succ _⟩
+        rw [a k (by show k ≠ w.nDict; exact Nat.ne_of_lt hk)]; exact hcopy.1 k hk
+      · exact ⟨hcopy.1, by rw [hcopy.2]; exact Nat.le_succ _⟩
     split at hi
     · cases hi
     · split at hi
@@ -819,9 +926,10 @@ theorem inverseLeaf_frame {w w' : World} {id nid : Nat} {o : Obj} {link ub : Boo
   · cases hi
 
 theorem inverseMembers_frame {w w' : World} {link ub : Bool} {ms ids : List Nat}
-    (hi : inverseMembers w link ub ms = .ok (w', ids)) : w'.pdicts = w.pdicts ∧ w'.nDict = w.nDict := by
+    (hi : inverseMembers w link ub ms = .ok (w', ids)) :
+    (∀ k, k < w.nDict → w'.pdicts k = w.pdicts k) ∧ w.nDict ≤ w'.nDict := by
   induction ms generalizing w ids with
-  | nil => simp [inverseMembers] at hi; obtain ⟨rfl, _⟩ := hi; exact ⟨rfl, rfl⟩
+  | nil => simp [inverseMembers] at hi; obtain ⟨rfl, _⟩ := hi; exact ⟨fun _ _ => rfl, Nat.le_refl _⟩
   | cons m ms ih =>
     unfold inverseMembers at hi
     split at hi
@@ -836,7 +944,7 @@ theorem inverseMembers_frame {w w' : World} {link ub : Bool} {ms ids : List Nat}
           obtain ⟨rfl, _⟩ := hi
           obtain ⟨a, b⟩ := ih h2
           obtain ⟨a', b'⟩ := inverseLeaf_frame h1
-          exact ⟨a.trans a', b.trans b'⟩
+          exact ⟨fun k hk => (a k (Nat.lt_of_lt_of_le hk b')).trans (a' k hk), Nat.le_trans b' b⟩
 
 /-! ### every operation preserves the invariant -/
 
@@ -866,7 +974,7 @@ theorem WF_step {w : World} (h : WF w) (op : Op) : WF (step w op).1 := by
     simp only [step]
     split
     · exact h
-    · next o ho => exact h.addObj (h.objs id o ho)
+    · next o ho => exact WF_copyObj h (h.objs id o ho)
   | inverse id link ub =>
     simp only [step]
     split
@@ -875,15 +983,16 @@ theorem WF_step {w : World} (h : WF w) (op : Op) : WF (step w op).1 := by
       have hok := h.objs id o ho
       split
       · -- Sequential: shallow copy, then the members' inverses
-        simp only [copyObj]
         split
         · exact h
         · next w2 ids hm =>
-          have h1 : WF (w.addObj o).1 := h.addObj hok
+          have h1 : WF (copyObj w o).1 := WF_copyObj h hok
           have h2 := WF_inverseMembers h1 hm
           obtain ⟨hp, hn⟩ := inverseMembers_frame hm
           refine h2.setObj _ ?_
-          exact (hok.fields (o' := { o with members := ids }) rfl rfl (fun x => x)).congr hp (by rw [hn]; exact Nat.le_refl _)
+          have hc := ObjOK_copyRec h hok
+          exact (hc.fields (o' := { copyRec w o with members := ids }) rfl rfl (fun x => x)).congrAt
+            (hp _ (by show w.nDict < w.nDict + 1; exact Nat.lt_succ_self _)) hn
       · exact h
       · split
         · exact h
@@ -906,10 +1015,9 @@ theorem WF_step {w : World} (h : WF w) (op : Op) : WF (step w op).1 := by
       · exact h
       · split
         · exact h
-        · simp only [copyObj]
-          have := WF_linkInto (h.addObj (h.objs a o ho)) (h.objs a o ho).addObj (w.addObj o).2 b
+        · have := WF_linkInto (WF_copyObj h (h.objs a o ho)) (ObjOK_copyRec h (h.objs a o ho)) (copyObj w o).2 b
           split
-          · simp_all
+          · next w' hl => exact WF_fst_of_eq hl this
           · exact h
   | unlink_ id =>
     simp only [step]
@@ -928,9 +1036,8 @@ theorem WF_step {w : World} (h : WF w) (op : Op) : WF (step w op).1 := by
     · next o ho =>
       split
       · exact h
-      · simp only [copyObj]
-        split
-        · next w' hu => exact WF_unlinkInto (h.addObj (h.objs id o ho)) (h.objs id o ho).addObj hu
+      · split
+        · next w' hu => exact WF_unlinkInto (WF_copyObj h (h.objs id o ho)) (ObjOK_copyRec h (h.objs id o ho)) hu
         · exact h
   | data_ id v =>
     simp only [step]
@@ -955,14 +1062,27 @@ theorem WF_step {w : World} (h : WF w) (op : Op) : WF (step w op).1 := by
         · split
           · exact h
           · next w' hd =>
-            have h1 : WF { w with nObj := w.nObj + 1 } := WF_of_frame h rfl rfl rfl
+            -- the copy's record (possibly without `p`) in the world with its new container
+            have key : ∀ oc : Obj, oc.slot = o.slot → oc.pdict = o.pdict →
+                assignData { w.copyDict oc.pdict with nObj := w.nObj + 1 } w.nObj (copyRec w oc) (w.lookup o) (.lit v) = .ok w' →
+                WF w' := by
+              intro oc hs hp hd'
+              have hokc : ObjOK w { o with p := o.p } := hok
+              obtain ⟨h1, h2⟩ := copyRec_ok h hok
+              have h1' : WF { w.copyDict oc.pdict with nObj := w.nObj + 1 } := by
+                rw [hp]; exact WF_of_frame h1 rfl rfl rfl
+              have hpk : ({ w.copyDict oc.pdict with nObj := w.nObj + 1 } : World).pdicts (copyRec w oc).pdict = w.pdicts o.pdict := by
+                simp [World.copyDict, copyRec, hp]
+              refine WF_assignData h1' ?_ ?_ ?_ ?_ hd'
+              · intro hk; rw [hpk] at hk; show oc.slot = .absent; rw [hs]; exact hok.famAbsent hk
+              · show w.nDict < w.nDict + 1; exact Nat.lt_succ_self _
+              · show SlotFine oc.slot; rw [hs]; exact hok.slotFine
+              · intro c hc; rw [hpk]; exact lookup_param_key hok.slotFine hc
             by_cases hcall : (w.lookup o).callable = true
             · simp only [hcall, if_true] at hd
-              exact WF_assignData (o := { o with p := none }) h1 hok.famAbsent hok.alloc hok.slotFine
-                (fun c hc => lookup_param_key hok.slotFine hc) hd
+              exact key { o with p := none } rfl rfl hd
             · simp only [hcall, if_false] at hd
-              exact WF_assignData (o := o) h1 hok.famAbsent hok.alloc hok.slotFine
-                (fun c hc => lookup_param_key hok.slotFine hc) hd
+              exact key o rfl rfl hd
   | dataGet id =>
     simp only [step]
     split
@@ -990,10 +1110,9 @@ theorem WF_step {w : World} (h : WF w) (op : Op) : WF (step w op).1 := by
     split
     · exact h
     · next o ho =>
-      simp only [copyObj]
-      have := WF_gridSet (h.addObj (h.objs id o ho)) (objs_addObj_new w o) g
+      have := WF_gridSet (WF_copyObj h (h.objs id o ho)) (objs_copyObj_new w o) g
       split
-      · simp_all
+      · next w' hg => exact WF_fst_of_eq hg this
       · exact h
   | condition_ id c =>
     simp only [step]
@@ -1004,7 +1123,7 @@ theorem WF_step {w : World} (h : WF w) (op : Op) : WF (step w op).1 := by
     simp only [step]
     split
     · exact h
-    · next o ho => exact WF_condSet (h.addObj (h.objs id o ho)) _ c
+    · next o ho => exact WF_condSet (WF_copyObj h (h.objs id o ho)) _ c
   | reset id =>
     simp only [step]
     split
